@@ -1,0 +1,61 @@
+//go:build verif
+
+// Contracts for package fees (C02 fee pool accounting, C18 currency match in fee handling).
+// Comment-only file, read by /verif/govc.
+
+package fees
+
+// fee(st)[a]  : fee-store record of address bytes a (the pool is the record under POOL_KEY), in the fee currency
+// feeTotal(st): ghost running total of all fee-store records
+//@ model fee(*Store) array[string]int
+//@ model feeTotal(*Store) int
+
+// typed view of the store's State prefix: assumed (rests on C09 and T-SER), like balance.get/set
+//@ assume func (*Store).Get
+//@   requires st != nil && st.feeOpt != nil
+//@   modifies nothing
+//@   ensures err == nil && coin.Amount != nil && fresh(coin.Amount) && big(coin.Amount) == fee(st)[str(address)] && coin.Currency == st.feeOpt.FeeCurrency
+
+//@ assume func (*Store).Set
+//@   requires st != nil && coin.Amount != nil
+//@   modifies fee(st)[str(address)], vHas(st.state), vVal(st.state)
+//@   ensures err == nil ==> fee(st)[str(address)] == big(coin.Amount)
+//@   ensures err != nil ==> fee(st)[str(address)] == old(fee(st))[str(address)]
+
+//@ func (*Store).AddToAddress
+//@   safety C18
+//@   requires st != nil && st.feeOpt != nil && coin.Amount != nil                                            // C18.nil-amount
+//@   requires coin.Currency.Name == st.feeOpt.FeeCurrency.Name                                              // C18.fee-currency
+//@   requires big(coin.Amount) >= 0                                                                         // C02.sign
+//@   modifies fee(st)[str(addr)], feeTotal(st), vHas(st.state), vVal(st.state)
+//@   update feeTotal(st) := old(feeTotal(st)) + (fee(st)[str(addr)] - old(fee(st))[str(addr)])
+//@   ensures err == nil ==> fee(st)[str(addr)] == old(fee(st))[str(addr)] + big(coin.Amount) && feeTotal(st) == old(feeTotal(st)) + big(coin.Amount)   // C02.delta
+//@   ensures err != nil ==> fee(st)[str(addr)] == old(fee(st))[str(addr)] && feeTotal(st) == old(feeTotal(st))                                        // C02.delta
+
+//@ func (*Store).MinusFromAddress
+//@   safety C18
+//@   requires st != nil && st.feeOpt != nil && coin.Amount != nil                                            // C18.nil-amount
+//@   requires coin.Currency.Name == st.feeOpt.FeeCurrency.Name                                              // C18.fee-currency
+//@   requires big(coin.Amount) >= 0                                                                         // C02.sign
+//@   modifies fee(st)[str(addr)], feeTotal(st), vHas(st.state), vVal(st.state)
+//@   update feeTotal(st) := old(feeTotal(st)) + (fee(st)[str(addr)] - old(fee(st))[str(addr)])
+//@   ensures err == nil ==> fee(st)[str(addr)] == old(fee(st))[str(addr)] - big(coin.Amount) && old(fee(st))[str(addr)] >= big(coin.Amount) && feeTotal(st) == old(feeTotal(st)) - big(coin.Amount)   // C02.delta
+//@   ensures err != nil ==> fee(st)[str(addr)] == old(fee(st))[str(addr)] && feeTotal(st) == old(feeTotal(st))                                        // C02.delta
+
+//@ func (*Store).AddToPool
+//@   safety C18
+//@   requires st != nil && st.feeOpt != nil && coin.Amount != nil                                            // C18.nil-amount
+//@   requires coin.Currency.Name == st.feeOpt.FeeCurrency.Name                                              // C18.fee-currency
+//@   requires big(coin.Amount) >= 0                                                                         // C02.sign
+//@   modifies fee(st)[POOL_KEY], feeTotal(st), vHas(st.state), vVal(st.state)
+//@   ensures err == nil ==> fee(st)[POOL_KEY] == old(fee(st))[POOL_KEY] + big(coin.Amount) && feeTotal(st) == old(feeTotal(st)) + big(coin.Amount)   // C02.delta
+//@   ensures err != nil ==> fee(st)[POOL_KEY] == old(fee(st))[POOL_KEY] && feeTotal(st) == old(feeTotal(st))                                        // C02.delta
+
+//@ func (*Store).MinusFromPool
+//@   safety C18
+//@   requires st != nil && st.feeOpt != nil && coin.Amount != nil                                            // C18.nil-amount
+//@   requires coin.Currency.Name == st.feeOpt.FeeCurrency.Name                                              // C18.fee-currency
+//@   requires big(coin.Amount) >= 0                                                                         // C02.sign
+//@   modifies fee(st)[POOL_KEY], feeTotal(st), vHas(st.state), vVal(st.state)
+//@   ensures err == nil ==> fee(st)[POOL_KEY] == old(fee(st))[POOL_KEY] - big(coin.Amount) && feeTotal(st) == old(feeTotal(st)) - big(coin.Amount)   // C02.delta
+//@   ensures err != nil ==> fee(st)[POOL_KEY] == old(fee(st))[POOL_KEY] && feeTotal(st) == old(feeTotal(st))                                        // C02.delta
